@@ -1,5 +1,5 @@
 """C09 — typed getters interpret stored text faithfully or refuse."""
-import gens, floatoracle as fo
+import gens, trees, floatoracle as fo
 from gens import enc
 from checklib import Scenario
 
@@ -151,6 +151,18 @@ def gen(rng, tier):
             lines.append(k + rng.choice([b"", b"", b" # uplink 42", b"\t#7", b"   "]))
         cmds = [gens.parse_cmd(0, b"/d/shells", b"\n".join(lines) + b"\n", rng.choice([b"", b"\n"]), b"#"), "getall 0"]
         out.append(Scenario(cmds, [True, True], tags=("nodelim",)))
+    # a key WITHOUT value overriding a key WITH a (numeric, boolean) value: through econf_mergeFiles and through a layered
+    # read; the typed getters on the result must answer as for a key without value
+    for _ in range(40 if tier == "quick" else 2000):
+        v = rng.choice([b"4096", b"-7", b"0x1F", b"yes", b"1.5e3", b"true"])
+        hi = rng.choice([b"maxproc\n", b"\nmaxproc\nother=1\n", b"# c\nmaxproc\n", b"maxproc=\n", b"[s]\nk=1\n"])
+        base = b"maxproc=" + v + b"\n[s]\nmaxproc = " + v + b"\n"
+        hi2 = hi + rng.choice([b"", b"[s]\nmaxproc\n", b"[s]\n\nmaxproc=\n"])
+        cmds = [gens.parse_cmd(0, b"/m/base.conf", base, b"=", b"#"), gens.parse_cmd(1, b"/m/over.conf", hi2, b"=", b"#"),
+                "merge 2 0 1", "getall 2", "dump 2",
+                trees.fsdir(b"/lay"), trees.fsdir(b"/lay/app.conf.d"), trees.fsfile(b"/lay/app.conf", base), trees.fsfile(b"/lay/app.conf.d/9.conf", hi2),
+                "readdirs 3 %s %s %s x636f6e66 x3d x23" % (enc(b"/lay"), enc(b"/none"), enc(b"app")), "getall 3"]
+        out.append(Scenario(cmds, [False, False, True, True, True, False, False, False, False, True, True], tags=("override-without-value",)))
     # bare keys: no value at all
     out.append(Scenario([gens.parse_cmd(0, b"/d/bare.conf", b"k\nk2=\n[s]\nk3\n", b"=", b"#"), "getall 0"], [False, True], tags=("bare",)))
     return out
